@@ -85,7 +85,8 @@ def run_property(modname: str, tier: str, seed: int, update_ledger: bool = False
             r.obligations = [o for o in r.obligations if not drop_re.search(o.clause)]
         results.append(r)
         all_obls.extend(r.obligations)
-    verdicts = discharge(all_obls, timeout_ms=timeout_ms, cross=(tier == "thorough"))
+    dead_ok = {(s.label or s.target) for s in specs if getattr(s, "dead_paths_ok", False)}
+    verdicts = discharge(all_obls, timeout_ms=timeout_ms, cross=(tier == "thorough"), cheap_covers=frozenset(dead_ok))
     solver_s = sum(v.seconds for v in verdicts)
     by_fn: dict[str, list[Verdict]] = defaultdict(list)
     for v in verdicts:
@@ -125,6 +126,8 @@ def run_property(modname: str, tier: str, seed: int, update_ledger: bool = False
             undecided.append(f"{fn}: in ledger but no contract instance was run")
         elif missing and not any(fn in u for u in undecided) and not any(fn in f for f in faults):
             undecided.append(f"{fn}: ledger clauses not generated: {missing[:5]}")
+    dead_paths: list[str] = []
+    covers_undecided = 0
     for v in verdicts:
         if v.status == "refuted":
             k = match_known(known, prop, v)
@@ -132,14 +135,22 @@ def run_property(modname: str, tier: str, seed: int, update_ledger: bool = False
                 known_hit.append((v, k))
             else:
                 refuted.append(v)
+        elif v.status == "undecided" and v.clause == "cover.exit" and v.fn in dead_ok:
+            covers_undecided += 1  # reachability of this exit not shown within the short budget; not a proof obligation
         elif v.status == "undecided":
             k = match_known(known, prop, v)
             if k:
                 known_hit.append((v, k))
             else:
                 undecided.append(f"{v.name}: undecided ({str(v.detail)[:160]})")
+        elif v.status == "vacuous" and v.clause == "cover.exit" and v.fn in dead_ok:
+            dead_paths.append(v.name)  # a path that only the Spec's definitional facts rule out (Run.assume_def)
         elif v.status in ("fault", "vacuous"):
             faults.append(f"{v.name}: {v.status} {str(v.detail)[:200]}")
+
+    for fn in sorted(dead_ok):
+        if any(v.fn == fn for v in verdicts) and not any(v.fn == fn and v.clause == "cover.exit" and v.status == "covered" for v in verdicts):
+            faults.append(f"{fn}: no exit of the function is reachable under its contract (all paths dead)")
 
     # ---- concretise / replay anything not proved
     replays: list[dict[str, Any]] = []
@@ -192,7 +203,7 @@ def run_property(modname: str, tier: str, seed: int, update_ledger: bool = False
     # ---- stand-ins / extra checks (bounded, never counted as proved)
     standins = []
     extra = getattr(mod, "extra_checks", None)
-    if extra is not None:
+    if extra is not None and not (only and os.environ.get("PYVC_SKIP_EXTRA")):  # development aid, only with --only
         for e in extra(tier, seed):
             standins.append(e)
             if e.get("violation") and not e.get("known"):
@@ -261,6 +272,8 @@ def run_property(modname: str, tier: str, seed: int, update_ledger: bool = False
             "refuted": [v.name for v in refuted],
             "undecided": undecided,
             "faults": faults,
+            "dead_paths": len(dead_paths),
+            "covers_undecided": covers_undecided,
             "bounded_standins": standins,
             "bounded_dimensions": list(getattr(mod, "BOUNDED", [])),
             "samples": samples,
